@@ -1,5 +1,6 @@
 import XjsModel.Model.Builder
 import XjsModel.Model.Printer
+import XjsModel.Spec.StringValueEval
 /-
   Line protocol driver: one op per input line, one result line per op.
   The Go harness (`/verif/harness/cmd/drive`) produces the same lines from the real implementation;
@@ -402,8 +403,16 @@ def doBuild (ops : List String) : String :=
     | _ => (b, outs ++ ["badop"])) (Builder.new, [])
   " ".intercalate outs
 
+/-- `SV d body expected`: the specification's value of a string-literal body, as UTF-16 code units -/
+def doSV (d body : String) : String :=
+  let b := unhex body
+  match Spec.svEval d.toNat! (b.length + 1) b with
+  | none => "none"
+  | some items => "units=" ++ ".".intercalate ((Spec.itemsToUnits items).map toString)
+
 def step (line : String) : String :=
   match line.splitOn " " with
+  | ["SV", d, body, _] => doSV d body
   | ["LEX", src, extra] => doLex src extra
   | ["PARSE", flags, tokI, stmtI, exprI, ops, src] => doParse flags tokI stmtI exprI ops src
   | ["PRINT", cfg, src] => doPrint cfg src
